@@ -514,6 +514,23 @@ static void linear_checks(Tape &t, CaseCtx &ctx) {
     ren.insert({vars[0], vars[4]});
   if (t.flag())
     ren.insert({vars[1], vars[5]});
+  // (tail choices) further entries with arbitrary targets: a variable of the expression, the same
+  // target twice (coefficients add up, terms may cancel), a swap. rename is a simultaneous
+  // substitution: eval(e.rename(m), v) = eval(e, v o m)
+  for (unsigned r = 0; r < 3; r++) {
+    unsigned rb = t.tail_u8();
+    if (rb & 1)
+      if (ren.insert({vars[(rb >> 1) % 4], vars[(rb >> 3) % 6]}).second && (rb >> 3) % 6 < 4)
+        R().cls("rename_onto_variable_of_the_expression_pool");
+  }
+  auto compose = [&](const val_t &v) {
+    val_t vm = v;
+    for (auto &kv : ren) {
+      auto it = v.find(kv.second);
+      vm[kv.first] = it == v.end() ? z_number(0) : it->second;
+    }
+    return vm;
+  };
   lin_t e1r = e1.rename(ren);
   for (auto &v : vals) {
     z_number a = eval(e1, v), b = eval(e2, v);
@@ -530,7 +547,8 @@ static void linear_checks(Tape &t, CaseCtx &ctx) {
     val_t v2 = v;
     for (auto &kv : ren)
       v2[kv.second] = v[kv.first];
-    VCHECK(ctx, P, eval(e1r, v2) == a, "lin_rename_hom", "rename changed the value of " << str(e1) << " -> " << str(e1r));
+    VCHECK(ctx, P, eval(e1r, v2) == eval(e1, compose(v2)), "lin_rename_hom", "rename changed the value of " << str(e1) << " -> " << str(e1r));
+    VCHECK(ctx, P, eval(e1r, v) == eval(e1, compose(v)), "lin_rename_hom", "rename changed the value of " << str(e1) << " -> " << str(e1r));
     // coefficient accessor
   }
   {
@@ -578,7 +596,8 @@ static void linear_checks(Tape &t, CaseCtx &ctx) {
     val_t v2 = v;
     for (auto &kv : ren)
       v2[kv.second] = v[kv.first];
-    VCHECK(ctx, P, holds(cr, v2) == h, "cst_rename", "");
+    VCHECK(ctx, P, holds(cr, v2) == holds(c, compose(v2)), "cst_rename", str(c) << " -> " << str(cr));
+    VCHECK(ctx, P, holds(cr, v) == holds(c, compose(v)), "cst_rename", str(c) << " -> " << str(cr));
   }
   if (e1.is_constant()) {
     val_t empty;
